@@ -51,8 +51,12 @@ def impl_call(case):
         other = 'analytical' if case.get('integrator', 'trapezoid') == 'trapezoid' else 'trapezoid'
         with conf.set_temp('default_integrator', other):
             obs2 = c08.build_obs(case)
-            extra['other_integrator'] = [guarded(lambda: obs2.effstim(unit_obj(qu['unit_name'])).value) if qu['q'] == 'effstim' and qu.get('area') is None
-                                         else None for qu in case['queries']]
+            extra['other_integrator'] = [
+                guarded(lambda: obs2.effstim(unit_obj(qu['unit_name'])).value) if qu['q'] == 'effstim' and qu.get('area') is None
+                else guarded(lambda: obs2.effective_wavelength(binned=qu['binned'],
+                                                               mode='efflerg' if qu['erg'] else 'efflphot').value) if qu['q'] == 'efflam'
+                else None for qu in case['queries']]
+            extra['other_pivot'] = guarded(lambda: float(obs2.bandpass.pivot().value))
         if case.get('k') is not None:
             k = O.fl(case['k'])
             obs3 = c08.build_obs(case, scale=k)
@@ -154,11 +158,17 @@ def oracle(rep, case, out):
                     continue
                 rep.oracle_fail('efflam:%s' % r['err'], 'effective_wavelength raised %s' % r['err'], case, r)
                 continue
+            oi = x['other_integrator'][i]
+            if oi is not None and ('err' in oi or oi['ok'] != r['ok']):
+                rep.oracle_fail('efflam:integrator_dependent', 'default_integrator changes the effective wavelength: %s vs %r' % (oi, r['ok']), case, r)
             lo, hi = x['brange'] if qu['binned'] else x['wrange']
             if x['nonneg'] and r['ok'] != 0 and not (lo * (1 - 1e-9) <= r['ok'] <= hi * (1 + 1e-9)):
                 rep.oracle_fail('efflam:outside_range', 'effective wavelength %r outside [%r, %r]' % (r['ok'], lo, hi), case, r)
             if not qu['binned'] and qu['erg'] and x['efflam_def'] is not None and abs(r['ok'] - x['efflam_def']) > 1e-9 * x['efflam_def']:
                 rep.oracle_fail('efflam:definition', 'effective wavelength %r, defining integrals give %r' % (r['ok'], x['efflam_def']), case, r)
+    op = x.get('other_pivot')
+    if op is not None and not (x['pivot'] != x['pivot'] and op.get('err') == 'NaN') and ('err' in op or op['ok'] != x['pivot']):
+        rep.oracle_fail('pivot:integrator_dependent', 'default_integrator changes the bandpass pivot: %s vs %r' % (op, x['pivot']), case, op)
     # magnitude = -2.5 log10(linear) - zero point
     res = {qu['unit_name']: r['ok'] for qu, r in zip(case['queries'], o['queries']) if qu['q'] == 'effstim' and 'ok' in r}
     import astropy.units as u
